@@ -375,7 +375,8 @@ def execute_orbit(ctx: RunCtx) -> None:
     orbit = lp.create_orbit(fam, **dict(kw, **{an: amp}))
     # pre-history of the orbit object: the property speaks of every correction that reports success, not only the first
     # one on a fresh analytic seed
-    pre = ds.pick(["none", "loose_1e-5_first", "loose_1e-4_first", "rounded_state_and_period"], "orbit.prehistory", (0.55, 0.2, 0.1, 0.15))
+    pre = ds.pick(["none", "loose_1e-5_first", "loose_1e-4_first", "rounded_state_and_period", "recorrected_then_edited", "failed_then_edited"],
+                  "orbit.prehistory", (0.45, 0.17, 0.08, 0.12, 0.1, 0.08))
     if pre.startswith("loose"):
         try:
             orbit.correct(orbit.correction_options.merge(**{"base.convergence.tol": 1e-5 if "1e-5" in pre else 1e-4, "base.convergence.max_delta": 0.5}))
@@ -389,6 +390,26 @@ def execute_orbit(ctx: RunCtx) -> None:
             orbit.period = round(float(o2.period), 7)
         except Exception:
             pre = "none"
+    elif pre in ("recorrected_then_edited", "failed_then_edited"):
+        # a converged orbit is corrected once more (nothing to write back) or a correction fails on it, then a component the
+        # corrector does not vary is nudged in the live state array the object hands out ("change the amplitude and re-correct")
+        try:
+            orbit.correct()
+            if pre == "recorrected_then_edited":
+                orbit.correct()
+            else:
+                try:
+                    orbit.correct(orbit.correction_options.merge(**{"base.convergence.tol": 1e-17, "base.convergence.max_attempts": 2}))
+                except Exception:
+                    pass
+            ctrl = set(int(i) for i in orbit.correction_config.control_indices)
+            live = orbit.initial_state
+            free = [i for i in (2, 0, 4) if i not in ctrl and abs(float(live[i])) > 1e-6]
+            if free:
+                live[free[0]] *= 1.0005 if free[0] == 0 else 1.02
+        except Exception:
+            pre = "none"
+            orbit = lp.create_orbit(fam, **dict(kw, **{an: amp}))
     ctx.probe("prehistory_" + pre)
     x_before, T_before = np.array(orbit.initial_state, float), orbit.period
     forward = ds.pick([1, -1], "orbit.forward", (0.75, 0.25))
